@@ -147,7 +147,7 @@ impl Server {
     pub fn handle_did_change_text_document(&mut self, params: DidChangeTextDocumentParams) {
         self.database.update_document(
             self.base_path.url_to_key(&params.text_document.uri.clone()),
-            params.content_changes.first().unwrap().text.clone(),
+            params.content_changes.last().unwrap().text.clone(),
         );
     }
 
